@@ -16,7 +16,7 @@ META = {
         'standard base64, prefixed with the hash name and ":"; known_hosts is the base64 of key_bytes. R3 exhaustiveness: '
         'every concrete host key / certificate class defines key_bytes as its own compose() (X.509 classes: the DER of the '
         'certificate). Byte exactness of that compose() is C07.'
-        ' R1 is decided by tabulation: the statements of _hassh are evaluated over name-list shapes (empty lists in every position, known and unknown names) and compared with MD5(\';\'.join(\',\'.join(names))). R4: the composer layout of every key / certificate class equals the specified blob. R5: the name-list scanner evaluated from its own statements.'),
+        ' R1 is decided by tabulation: the statements of _hassh are evaluated over name-list shapes (empty lists in every position, known and unknown names) and compared with MD5(\';\'.join(\',\'.join(names))). R4: the composer layout of every key / certificate class equals the specified blob. R5: the name-list scanner evaluated from its own statements (lists with an empty name must be refused). R6: validity timestamps (C11.R5). R7: nested key blobs are consumed completely. R8: the SEC1 point of ECDSA keys keeps the field width for coordinates with leading zero octets (C07.R12).'),
     'assumptions': ['hashlib / cryptodatahub hash_bytes implement the named digests'],
     'trusted_base': ['python ast', 'sa/specs/fingerprints.json'],
     'exhaustive': True,
